@@ -354,6 +354,8 @@ def reach(stmts, target, az: Atomizer, pre=T):
     entry of `stmts`, within one execution of the block (one loop iteration). None if not inside."""
     cur = pre
     for s in stmts:
+        if s is target:
+            return cur
         if contains(s, target):
             if isinstance(s, ast.If):
                 if contains(s.test, target):
